@@ -61,6 +61,7 @@ struct %(IL)s { int *p; unsigned long n; };
 #define %(OIT)s__op_deref__0 vf_oit_deref
 #define %(OIT)s__op_inc__0 vf_oit_inc
 #define ext_op_ne__std_Rb_tree_iterator_std_pair_std_string_std_shared_ptr_vf_obj_Self_ref_std_Rb_tree_iterator_std_pair_std_string_std_shared_ptr_vf_obj_Self_ref(a, b) ((a)->idx != (b)->idx)
+#define ext_op_eq__std_Rb_tree_iterator_std_pair_std_string_std_shared_ptr_vf_obj_Self_ref_std_Rb_tree_iterator_std_pair_std_string_std_shared_ptr_vf_obj_Self_ref(a, b) ((a)->idx == (b)->idx)
 #define %(TMAP)s__ctor vf_tm_ctor
 #define %(TMAP)s__dtor(m) ((void)0)
 #define %(TMAP)s__end__0 vf_tm_end
@@ -71,7 +72,9 @@ struct %(IL)s { int *p; unsigned long n; };
 #define %(TIT)s__op_arrow__0 vf_tit_deref
 #define %(TCIT)s__op_arrow__0 vf_tit_deref
 #define ext_op_ne__std_Rb_tree_iterator_std_pair_std_string_std_vector_int_Self_ref_std_Rb_tree_iterator_std_pair_std_string_std_vector_int_Self_ref(a, b) ((a)->idx != (b)->idx)
+#define ext_op_eq__std_Rb_tree_iterator_std_pair_std_string_std_vector_int_Self_ref_std_Rb_tree_iterator_std_pair_std_string_std_vector_int_Self_ref(a, b) ((a)->idx == (b)->idx)
 #define ext_op_ne__std_Rb_tree_const_iterator_std_pair_std_string_std_vector_int_Self_ref_std_Rb_tree_const_iterator_std_pair_std_string_std_vector_int_Self_ref(a, b) ((a)->idx != (b)->idx)
+#define ext_op_eq__std_Rb_tree_const_iterator_std_pair_std_string_std_vector_int_Self_ref_std_Rb_tree_const_iterator_std_pair_std_string_std_vector_int_Self_ref(a, b) ((a)->idx == (b)->idx)
 #define %(VI)s__ctor__initializer_list_value_type_allocator_type_ref vf_vi_from_il
 #define %(VI)s__dtor(v) ((void)0)
 #define %(VI)s__push_back__1 vf_vi_push_back
@@ -80,6 +83,7 @@ struct %(IL)s { int *p; unsigned long n; };
 #define %(VIT)s__op_deref__0 vf_vit_deref
 #define %(VIT)s__op_inc__0(it) ((it)->idx = (it)->idx + 1, (it))
 #define ext_op_ne__normal_iterator_int_std_vector_int_ref_normal_iterator_int_std_vector_int_ref(a, b) ((a)->idx != (b)->idx)
+#define ext_op_eq__normal_iterator_int_std_vector_int_ref_normal_iterator_int_std_vector_int_ref(a, b) ((a)->idx == (b)->idx)
 #define %(VSO)s__ctor(v) ((v)->size = 0, (v)->f.p = 0, (v)->other.p = 0)
 #define %(VSO)s__push_back__1 vf_vso_push_back
 #define %(VSO)s__dtor vf_vso_dtor
@@ -337,7 +341,7 @@ void %(NAME)s(struct %(OIT)s *ret, struct %(OIT)s *first, struct %(OIT)s *last, 
 {
   *ret = *first;
   while (1)
-  __CPROVER_assigns(ret->idx, ret->m->other, g_user_calls, vf_exc, vf_user_threw)
+  __CPROVER_assigns(ret->idx, ret->m->other, g_user_calls, vf_exc, vf_user_threw%(EXTRA)s)
   __CPROVER_loop_invariant(ret->m == first->m && ret->idx <= last->idx && ret->gen == first->gen && !vf_exc && !vf_user_threw && g_user_calls >= 0 && g_user_calls <= VF_BIG)
   __CPROVER_decreases(last->idx - ret->idx)
   {
@@ -349,8 +353,8 @@ void %(NAME)s(struct %(OIT)s *ret, struct %(OIT)s *first, struct %(OIT)s *last, 
   }
 }
 '''
-GHOST += FIND_IF % dict(D, NAME='vf_find_if_1', LAM=FIND1)
-GHOST += FIND_IF % dict(D, NAME='vf_find_if_2', LAM=FIND2)
+GHOST += FIND_IF % dict(D, NAME='vf_find_if_1', LAM=FIND1, EXTRA='')
+GHOST += FIND_IF % dict(D, NAME='vf_find_if_2', LAM=FIND2, EXTRA=', vf_SOH->typeMap.other, vf_SOH->typeMap.felem.second.scratch')
 
 UNIT = dict(
     name='soh',
@@ -361,7 +365,7 @@ UNIT = dict(
         'emplace on an existing key destroys the node it built from its argument (libstdc++ behaviour: the passed shared_ptr is released)',
         'the user predicate (std::function) may throw at any invocation and returns an arbitrary result',
         'ENABLE_TRIPWIRE is not defined (default build)',
-        'type-filtered findObject(pred, type) and the type vectors are verified for lock discipline and memory safety only',
+        'the type vectors are abstract (length + position of one focus tag)',
     ])
 
 TAGMAP = {'L1': 'C17', 'L2': 'C17 C20', 'L5': 'C17', 'noexcept': 'C17 C20'}
@@ -437,6 +441,26 @@ FN = {
                        ('C17', FOC + ' == g_cs_has_f && self->objectMap.size == g_cs_size', 'lookups do not modify the map'),
                        ('C20', 'vf_user_threw == (vf_exc != 0)', 'an exception thrown by the predicate propagates; nothing else throws')],
               assigns=['*vf_ret, *self, ' + SG]),
+        entry(where=lambda fm: 'operand' in ' '.join(fm['params']) and 'type' in ' '.join(fm['params']), inline_callees=True,
+              ensures=[('C17', '!vf_exc ==> (vf_ret->p == 0 || vf_ret->p == &vf_oobj || vf_ret->p == ' + OBJ + ')', 'returns null or an object that is stored'),
+                       ('C17', '(!vf_exc && vf_ret->p != 0 && vf_ret->p == &vf_fobj && type == vf_ft) ==> (self->typeMap.has_f && self->typeMap.felem.second.has_t)',
+                        'an object is returned for a type only if that type is among the tags registered for its name'),
+                       ('C17', '(!vf_exc && vf_ret->p == &vf_fobj) ==> vf_fobj.refs == g_cs_refs + 1', 'as a shared_ptr copy made under the lock'),
+                       ('C17', FOC + ' == g_cs_has_f && self->objectMap.size == g_cs_size && self->typeMap.has_f == g_cs_thas_f', 'lookups do not modify the maps'),
+                       ('C20', 'vf_user_threw == (vf_exc != 0)', 'an exception thrown by the predicate propagates; nothing else throws')],
+              assigns=['*vf_ret, *self, ' + SG]),
+    ],
+    r'SearchableObjectHolder::findObject::lambda0::op_call': [
+        # the two predicate closures of findObject(pred) / findObject(pred, type): verified as part of
+        # their callers (inlined through the find_if model); the typed one scans the tag vector
+        dict(inline=True, where=lambda fm: '_int__lambda0' not in fm['cname']),
+        dict(inline=True, where=lambda fm: '_int__lambda0' in fm['cname'],
+             loops={0: dict(invariant=[('C17', 'vf_begin0.v == vf_range0 && vf_end0.v == vf_range0 && vf_end0.idx == vf_range0->size && vf_begin0.idx <= vf_range0->size && '
+                                               '(vf_range0 == &vf_c->cap1->typeMap.felem.second || vf_range0 == &vf_c->cap1->typeMap.other.second) && '
+                                               '(!vf_range0->has_t || vf_range0->tpos < vf_range0->size) && ((vf_range0->has_t && vf_c->cap2 == vf_ft) ==> vf_begin0.idx <= vf_range0->tpos) && '
+                                               '!vf_exc && vf_SOH == vf_c->cap1 && vf_SOH->mapLock.excl_me',
+                                        'scan of the tag vector inside the predicate: the focus tag has not been passed without returning true')],
+                            assigns='vf_begin0.idx, vf_range0->scratch', decreases='vf_range0->size - vf_begin0.idx')}),
     ],
     r'SearchableObjectHolder::copyObject': entry(
         ensures=[('C17', '(!vf_exc && copyFromName->id == vf_fk && !' + FOC + ') ==> !__CPROVER_return_value', 'copying an unknown name fails'),
